@@ -25,7 +25,10 @@ print the canonical outcome line.
         refs     = k groups separated by `|`, each `m1,gs,m2,es,m3,digest`: the tags (deep hashes) of the
                    values the session produces when it runs alone -- the model's round functions as a table
         schedule = events separated by `,`: `<i>.g1` `<i>.e2<x>` `<i>.g3<x><y>` `<i>.e4<x><y>`, x,y in m|b
-                   (input consumed in memory | through bytes)
+                   (input consumed in memory | through bytes), optionally followed by a DISTURBANCE of the step:
+                   `!r<off>k<kind>` the random source fails at byte <off> (kind 0|1|2), `!f<src>` the message is the
+                   one session <src> holds, `!s<src>` (round 4) the evaluator state is the one of session <src>,
+                   `!u<mu>` the message's bytes are mutated in transit (Model/Sha2pcProc.lean `Dist`, `mutate`)
         -> `hist <status>/<state>;...` one entry per event: status ok|err|panic|off and the whole process
            state after the event (`Proc.step`): sessions separated by `|`, six slots each, `-` = empty
 
@@ -273,7 +276,10 @@ def tableRounds (ref : Array String) : Rounds tagTy :=
     r2 := fun m1 => if m1 == g 0 then .ok (g 2, g 3) else .error
     r3 := fun gs m2 => if gs == g 1 && m2 == g 2 then .ok (g 4) else .error
     r4 := fun es m3 => if es == g 3 && m3 == g 4 then .ok (g 5) else .error
-    t1 := .ok, tg := .ok, t2 := .ok, te := .ok, t3 := .ok }
+    t1 := .ok, tg := .ok, t2 := .ok, te := .ok, t3 := .ok
+    -- a failing random source, a message cut / extended in transit: the round returns an error
+    x1 := fun _ _ => .error, x2 := fun _ _ _ => .error, x3 := fun _ _ _ _ => .error
+    u1 := fun _ _ => .error, u2 := fun _ _ => .error, u3 := fun _ _ => .error }
 
 def parseMode (c : Char) : Option Bool :=
   match c with
@@ -295,12 +301,34 @@ def parseAct (s : String) : Option Act :=
     pure (.e4 x y)
   | _ => none
 
-def parseEvent (s : String) : Option (Nat × Act) :=
+def parseDist (s : String) : Option Dist :=
+  match s.toList with
+  | 'r' :: rest =>
+    match (String.ofList rest).splitOn "k" with
+    | [off, kind] => do
+      let off ← off.toNat?
+      let kind ← kind.toNat?
+      pure (.rng off kind)
+    | _ => none
+  | 'f' :: rest => (String.ofList rest).toNat?.map .foreignMsg
+  | 's' :: rest => (String.ofList rest).toNat?.map .foreignState
+  | 'u' :: rest => (String.ofList rest).toNat?.map .malformed
+  | _ => none
+
+def parseEvent (s : String) : Option Ev :=
   match s.splitOn "." with
-  | [i, a] => do
-    let i ← i.toNat?
-    let a ← parseAct a
-    pure (i, a)
+  | [i, a] =>
+    match a.splitOn "!" with
+    | [a] => do
+      let i ← i.toNat?
+      let a ← parseAct a
+      pure ⟨i, a, none⟩
+    | [a, d] => do
+      let i ← i.toNat?
+      let a ← parseAct a
+      let d ← parseDist d
+      pure ⟨i, a, some d⟩
+    | _ => none
   | _ => none
 
 def sessStr (s : Sess tagTy) : String :=
@@ -315,14 +343,14 @@ def statusStr : Option (Res (Sess tagTy)) → String
   | some .error => "err"
   | some .panic => "panic"
 
-/-- Runs the history event by event with `Proc.step`; after every event the
+/-- Runs the history event by event with `Proc.stepD`; after every event the
 status of the step and the whole process state. -/
-def runHist (k : Nat) (refs : Array (Array String)) (sched : List (Nat × Act)) : String :=
+def runHist (k : Nat) (refs : Array (Array String)) (sched : List Ev) : String :=
   let cfg : Cfg tagTy := fun i => tableRounds (refs.getD i #[])
   let init : Proc tagTy := fun _ => {}
   let (_, outs) := sched.foldl (init := (init, (#[] : Array String))) fun (st, outs) e =>
-    let status := statusStr ((st e.1).stepRes (cfg e.1) e.2)
-    let st' := Proc.step cfg st e
+    let status := statusStr (Proc.stepResD cfg st e)
+    let st' := Proc.stepD cfg st e
     -- materialise (the closure chain would otherwise grow with the history)
     let arr := (Array.range (k + 1)).map fun i => st' i
     let stm : Proc tagTy := fun j => if j < k then arr.getD j {} else st' j
@@ -432,7 +460,7 @@ def handle (st : State) (cmd : String) (args : List String) : State × String :=
     match k.toNat?, (sched.splitOn ",").mapM parseEvent with
     | some k, some evs =>
       let refs := ((refs.splitOn "|").map fun r => (r.splitOn ",").toArray).toArray
-      if refs.size ≠ k ∨ refs.any (·.size ≠ 6) ∨ evs.any (fun e => e.1 ≥ k) then (st, "bad-op")
+      if refs.size ≠ k ∨ refs.any (·.size ≠ 6) ∨ evs.any (fun e => e.sess ≥ k) then (st, "bad-op")
       else (st, runHist k refs evs)
     | _, _ => (st, "bad-op")
   | _, _ => (st, "bad-op")
